@@ -342,6 +342,12 @@ example : Canonical (wP ++ ['(','a',')',' ','-','>',' ','T','[','(',')',']',':']
 theorem canon_default : Canonical (wP ++ ['(','a','=','1',')',':']) wP ['a','=','1'] ([] ++ [':']) :=
   Canonical.plain [] (by decide) (by decide) (by decide) (by decide) (by decide)
 
+/-- non-vacuity of `header_resynth_partial`: `def f(a):` with the new signature `(a: int)` is inside the region,
+    and the rebuilt header is `def f(a: int):` -/
+example : Canonical (wP ++ ['(','a',')',':']) wP ['a'] ([] ++ [':']) ∧ PlainArgs { args := [aInt] } ∧
+    replaceArgsValue (wP ++ ['(','a',')',':']) [aInt] = wP ++ ['(','a',':',' ','i','n','t',')',':'] :=
+  ⟨Canonical.plain [] (by decide) (by decide) (by decide) (by decide) (by decide), ⟨rfl, rfl, rfl, rfl, rfl⟩, by decide⟩
+
 /-- **C07 (iv), negation: defaults.**  `def f(a=1):` with the new annotation `a: int` becomes `def f(a: int):`. -/
 theorem header_not_full_default : ¬ header_full := by
   intro h
